@@ -8,7 +8,6 @@ import (
 )
 
 func (pdb *pgDb) Dump(ctx context.Context, key []byte) (*db.Dumper, error) {
-	pdb.SetLanguage(nil)
 	lk, err := pdb.ToKey(ctx, key)
 	if err != nil {
 		return nil, err
